@@ -462,7 +462,7 @@ def playback(scratch, spec, tests, logdir, tag, release=False):
         cmd += ["--release"]
     cmd += ["--", "kani_concrete_playback"]
     logf = os.path.join(logdir, tag + (".release" if release else ".dev") + ".playback.log")
-    rc, timed_out, wall = run_limited(cmd, crate_dir(scratch, spec), logf, 900, 16)
+    rc, timed_out, wall = run_limited(cmd, crate_dir(scratch, spec), logf, 420, 16)
     text = open(logf, errors="replace").read()
     out = {}
     for t in tests:
@@ -470,6 +470,10 @@ def playback(scratch, spec, tests, logdir, tag, release=False):
         st = m.group(1) if m else None
         if st is None and ("SIGSEGV" in text or "signal: 11" in text):
             st = "SIGSEGV"
+        if st is None and timed_out and re.search(r"^running \d+ tests?$", text, re.M):
+            # the natively compiled test was started and did not return within the time limit: the counter-example
+            # reproduces as non-termination (the build itself is included in the limit, hence the "running" check)
+            st = "failed"
         out[t["fn"]] = st
     return out, logf
 
